@@ -155,8 +155,8 @@ PROPS = {
         'rule': S_RULE + (' Ownership oracle: a get succeeds only with an aligned in-range block all of whose frames were free and marks exactly '
                           'them; a put succeeds iff the shadow model allows it (all frames allocated, whole-huge-frame rule) and frees exactly '
                           'them; a failing call changes no frame.'),
-        'partial': ('sequentially proved at full strength for get/put/drain/change_tree in every reachable state; the remaining assumption (the lower '
-                    'initialisation programs establish the lower invariant for every frame count) is carried by the correspondence'),
+        'partial': ('sequentially proved at full strength for get/put/drain/change_tree in every state reachable from a free-all / allocate-all construction '
+                    '(any frame count); for Init::Recover/None the invariant of the handed-over state is assumed (C05/C07)'),
         'assumptions': [],
     },
     'C03': {
@@ -209,8 +209,8 @@ PROPS = {
                  'free-all: exhaust with a random order then with base frames (every further get must fail, C10 oracle), free everything; '
                  'allocate-all: gets must fail, everything is freed piecewise (tree/huge/small orders), then the cycle repeats; ownership '
                  'and accounting oracles after every call. ' + S_RULE),
-        'partial': ('Trees::new proved to establish the upper invariant from the lower one; arithmetic of the initial counters proved for every frame count; '
-                    'that free_all/reserve_all write them and the matching bits (lower invariant) is carried by the correspondence'),
+        'partial': ('none for free-all / allocate-all: the init programs are proved to establish both invariants and the stated allocation state for every '
+                    'frame count; the dynamic clauses are C02/C04 theorems. (Tie of the model to the source: byte-level correspondence.)'),
         'assumptions': [],
     },
     'C09': {
@@ -219,8 +219,8 @@ PROPS = {
         'runs': {'quick': [seq('mixed', 30, 150), seq('malformed', 10, 150), seq('init', 10, 30)],
                  'thorough': [seq('mixed', 800, 300), seq('malformed', 200, 300), seq('change', 200, 300), seq('drain', 200, 300), seq('init', 300, 60), seq('zone', 100, 300)]},
         'rule': S_RULE + ' Oracle: no public call (new, get, put, drain, change_tree, stats, tree_stats, stats_at, is_free, validate while online) panics; every call runs under catch_unwind.',
-        'partial': ('proved: no call of any sequential history (get/put/drain/change_tree/stats after Trees::new) panics; carried by the correspondence: '
-                    'lower initialisation programs for every frame count incl. 0, tree_stats/validate/stats_at(0)/is_free'),
+        'partial': ('proved: construction (free-all/allocate-all, every frame count incl. 0) and every sequential history of get/put/drain/change_tree/stats '
+                    'never panic; carried by the correspondence: Init::Recover, tree_stats/validate/stats_at(0)/is_free'),
         'assumptions': ['harness built with overflow-checks on, debug-assertions off (assertions of the release configuration)'],
     },
     'C10': {
@@ -269,9 +269,13 @@ PROPS = {
     'C21': {
         'oracles': ['C21'],
         'geoms': {'quick': ['default'], 'thorough': ['default', 'th1', 'k16']},
-        'runs': {'quick': [conc(10, 20, 20, 40)], 'thorough': [conc(120, 100, 100, 600, bound=3)]},
+        'runs': {'quick': [conc(10, 20, 20, 40), seq('mixed', 15, 150), seq('lower', 10, 150), seq('malformed', 10, 100)],
+                 'thorough': [conc(120, 100, 100, 600, bound=3), seq('mixed', 300, 300), seq('lower', 200, 300), seq('malformed', 200, 300), seq('change', 100, 300)]},
         'rule': T_RULE + ('Freeze experiments: at sampled scheduling points of explored schedules all threads but one are frozen and the remaining '
-                          'call must complete within a fixed budget of atomic accesses (solo_bound of the configuration); K1 panics end a call.'),
+                          'call must complete within a fixed budget of atomic accesses (solo_bound of the configuration); K1 panics end a call. '
+                          'Sequential histories (every call runs without interference) under a watchdog: a call of the real allocator that makes no '
+                          'progress for 20 s ends the run with exit 78 and is reported with the call as C21 violation (also for failing calls: '
+                          'targeted gets on partly allocated chunks, frees with a wrong order, malformed calls).'),
         'partial': ('proved: every call of the model terminates when run alone from any intermediate thread state and memory (structural: no waiting '
                     'loop without a retry budget), each update loop needs at most 2 more accesses; an explicit uniform numeric bound is measured'),
         'assumptions': ['hooked atomics: a yield point before every Atom access; compare_exchange never fails spuriously'],
